@@ -164,7 +164,7 @@ pub fn run_c12(args: &Args) -> Report {
     let mut rep = Report::new("C12", "M5", &args.replay_dir);
     let model = Model::new(&args.model, &args.work);
     let mut rng = Rng::new(args.seed.wrapping_mul(1000).wrapping_add(args.shard as u64).wrapping_add(0xC12));
-    let total = if args.thorough() { 40000 } else { 1200 };
+    let total = if args.thorough() { 20000 } else { 1200 };
     let n = total / args.shards.max(1);
     let opts = GenOpts { crlf_pct: 50, error_pct: 3, ..GenOpts::default() };
     rep.rule = "projects from the C01 generator with the line ending of every source line, static file, command output (printf with \\n and \\r\\n), temp body and stored tag content chosen independently (50% CRLF first lines, 15% mixed files). Oracle on the implementation: byte scan of every generated file (output of each source, and its temp files): every \\n is preceded by \\r iff the first line of that source ends in CRLF, and no lone \\r. Also compared with the model (M5). distinct_nontrivial = distinct generator signatures x source line ending.".to_string();
@@ -230,7 +230,7 @@ pub fn run_c13(args: &Args) -> Report {
     let mut rep = Report::new("C13", "M5", &args.replay_dir);
     let model = Model::new(&args.model, &args.work);
     let mut rng = Rng::new(args.seed.wrapping_mul(1000).wrapping_add(args.shard as u64).wrapping_add(0xC13));
-    let total = if args.thorough() { 30000 } else { 900 };
+    let total = if args.thorough() { 12000 } else { 900 };
     let n = total / args.shards.max(1);
     // no include/after of *generated* files: the option legitimately changes a dependency's final line
     // ending, which an includer then sees in the middle of its own output (the theorem is per file, same world)
@@ -349,7 +349,7 @@ pub fn run_c16(args: &Args) -> Report {
     let mut rep = Report::new("C16", "M5", &args.replay_dir);
     let model = Model::new(&args.model, &args.work);
     let mut rng = Rng::new(args.seed.wrapping_mul(1000).wrapping_add(args.shard as u64).wrapping_add(0xC16));
-    let total = if args.thorough() { 30000 } else { 1000 };
+    let total = if args.thorough() { 15000 } else { 1000 };
     let n = total / args.shards.max(1);
     rep.rule = "two kinds of single-source cases over an alphabet rich in directive look-alikes. (identity) sources without any directive line (the model's detectFrom rejects every line): oracle = output bytes equal the source lines joined by the source's line ending, final newline per option. (write-escape) a random text L (first line without leading blank, no trailing blanks; may contain real directive lines, tag names in use, look-alikes) escaped as `-TXTPP#write L0 / -L1 / ...`, optionally after a stored tag whose name occurs in L: oracle = output equals L joined by the line ending (+ the rest of the file). LF/CRLF, with/without final newline, both trailing settings. All cases also compared with the model. distinct_nontrivial = distinct (kind, line-set shape, le, final newline, trailing).".to_string();
     let mut runner = Runner::new(args, "c16");
